@@ -20,10 +20,9 @@ def gen_di_case(rng):
     path = "/sim/d/.discinfo"
     for _ in range(rng.randint(1, 3)):
         ops.append({"op": "dump", "path": path})
-        ops.append({"op": "restart", "path": path, "via": pick(rng, ["path", "handle", "loads"]), "offset": rng.randint(0, 40)})
-        K2 = gen_ti.gen_discinfo(rng)
-        f = pick(rng, ["timestamp", "description", "arch", "disc_numbers"])
-        ops.append({"op": "di_set", "field": f, "value": K2[f]})
+        if rng.random() < 0.75:     # else: the live object goes on being used after it was written
+            ops.append({"op": "restart", "path": path, "via": pick(rng, ["path", "handle", "loads"]), "offset": rng.randint(0, 40)})
+        ops.append(KITS["M-DI"].mutation(K, rng))
     ops.append({"op": "dump", "path": path})
     ops.append({"op": "restart", "path": path, "via": "path"})
     _machine = "M-DI"
@@ -50,7 +49,8 @@ def generate(rng, tier, idx):
         if rng.random() < 0.15:
             d["to"] = "handle"
         ops.append(d)
-        ops.append({"op": "restart", "path": path, "via": pick(rng, ["path", "handle", "loads"]), "offset": rng.randint(0, 1500)})
+        if rng.random() < 0.75:     # else: the live object goes on being used after it was written
+            ops.append({"op": "restart", "path": path, "via": pick(rng, ["path", "handle", "loads"]), "offset": rng.randint(0, 1500)})
         for _ in range(rng.randint(0, 3)):
             ops.append(gen_ti.valid_mutation(K, rng))
     ops.append({"op": "dump", "path": path})
